@@ -1,5 +1,7 @@
 import Dcg.Proofs.Types
 import Dcg.Proofs.Rename
+import Dcg.Proofs.SpellOp
+import Dcg.Proofs.NoneOnce
 /-
 C13 — type annotations are well-formed and mean the same in every spelling.
 Only property theorems live here; helper lemmas are in Dcg/Proofs/Types.lean.
@@ -12,6 +14,7 @@ expression; `print`/`denote` (Sem.Typing) are the syntax and the meaning of typi
 -/
 namespace Dcg.Props.C13
 open Dcg.Model.Types Dcg.Model.HintExpr Dcg.Proofs.Types Dcg.Proofs.Cover
+open Dcg.Proofs.TypesOp Dcg.Proofs.HintOp Dcg.Proofs.PrintInj Dcg.Proofs.SpellOp Dcg.Proofs.NoneOnce
 open Dcg.Sem.Typing hiding Str sNone sComma sPipe
 
 def lit (s : String) : Str := s.toList
@@ -33,10 +36,62 @@ theorem typeHint_eq_print_typing (o : Opts) (ho : o.unionOp = false) (t : DT) (h
 example : wfTree (.mk { isOptional := true } none [.mk { literals := [lit "'a b'", lit "1"] } none [], leaf "int" true, leaf "None"]) = true := by
   decide
 
+/-- THE SAME FOR THE `|` SPELLING (`use_union_operator=True`, any of the four container spellings):
+for every tree with plain names (`wfTree`: no type name, reference name or literal contains one of
+`[ ] , |`, names contain no white space, literals none at their ends, no node is empty) the text
+`DataType.type_hint` builds — `re.split(r"\s*\|\s*")` at EVERY `|` regardless of brackets, dropping the
+parts that read `None`, re-joining with `" | "`, `get_optional_type` appending `" | None"` — is exactly
+the printed form of the structurally rendered expression (operator printer: `A | B | None`), the
+`is_optional` flag it leaves is the structural one, and that expression is a well-formed hint
+expression: every `|` union is flat, has ≥ 2 alternatives and mentions `None` only in last position.
+(The character-level core is `removeNoneB_print`: the parts of a printed expression are computed
+structurally, and no part other than the last reads `None`.) -/
+theorem typeHint_eq_print_operator (o : Opts) (ho : o.unionOp = true) (t : DT) (hw : wfTree t = true) :
+    (typeHint o t).1 = print (hintE o t).1 ∧ (typeHint o t).2 = (hintE o t).2 ∧ wfB (hintE o t).1 = true := by
+  obtain ⟨h1, h2⟩ := typeHint_operator o ho t hw
+  rw [h1]; exact ⟨rfl, rfl, h2⟩
+
+/-- non-vacuity: `Dict[int | None, List[Set[str] | Literal['a b', 1] | None] | Foo] | None` -/
+example :
+    let t : DT := .mk { isOptional := true, isDict := true } (some (leaf "int" true))
+      [.mk { isList := true } none [.mk { isOptional := true } none
+          [.mk { isSet := true } none [leaf "str"], .mk { literals := [lit "'a b'", lit "1"] } none [], leaf "None"]],
+       .mk { ref := some { shortName := lit "Foo" } } none []]
+    wfTree t = true ∧
+    (typeHint operatorO t).1 = lit "Dict[int | None, List[Set[str] | Literal['a b', 1] | None] | Foo] | None" := by
+  decide
+
+/-- `_remove_none_from_union(text, use_union_operator=True)` and `get_optional_type(text, True)` on the
+printed form of ANY well-formed hint expression: the string surgery is the structural removal of the
+`None` alternatives of the top-level union, resp. the structural `… | None`. -/
+theorem removeNone_structural_operator (e : TExpr) (h : wfB e = true) :
+    removeNone true (print e) = print (rmE true e) ∧
+    getOptionalType true (print e) = print (getOptionalE true e) := by
+  refine ⟨?_, (getOptional_operator e h).1⟩
+  simp only [removeNone, rmE, if_true]
+  exact removeNoneB_print e h
+
+example : wfB (.bor [.app (lit "List") [.bor [.atom (lit "int"), eNone]], .atom (lit "str"), eNone]) = true ∧
+    removeNone true (lit "List[int | None] | str | None") = lit "List[int | None] | str" := by
+  decide
+
 /-- … and unambiguously so: two different well-formed expressions never print to the same text
 (the printer is injective on expressions with plain names; no `|`). -/
 theorem hint_unambiguous (e e' : TExpr) (h : wfU e = true) (h' : wfU e' = true) (hp : print e = print e') : e = e' :=
   print_inj e h e' h' hp
+
+/-- ALL SPELLINGS: the printer is injective on well-formed hint expressions (`wfB`: subscriptions
+`h[a, b]` incl. `Optional[…]`/`Union[…]`, and flat `a | b` unions with `None` last), so a hint text has
+at most one reading; the expressions of the `Union[…]` spelling are among them. -/
+theorem hint_unambiguous_all (e e' : TExpr) (h : wfB e = true) (h' : wfB e' = true) (hp : print e = print e') : e = e' :=
+  print_inj_wfB e h e' h' hp
+
+example : wfB (.app (lit "Dict") [.atom (lit "str"), .bor [.app (lit "List") [.atom (lit "int")], eNone]]) = true ∧
+    wfU (.app sOptional [.app sUnion [.atom (lit "int"), .atom (lit "str")]]) = true := by decide
+
+/-- the expressions of the `Union[…]` spelling (what `typeHint_eq_print_typing` yields) are well-formed hint
+expressions in the sense of `hint_unambiguous_all`: one notion of reading for all eight spellings. -/
+theorem union_spelling_is_wellformed (e : TExpr) (h : wfU e = true) : wfB e = true := wfB_of_wfU e h
 
 /-! ### Balanced brackets -/
 
@@ -153,6 +208,51 @@ theorem no_double_optional_false : ¬ NoDoubleOptional := by
   rw [nested_optional_double_none.1] at this
   exact absurd this (by decide)
 
+/-- FULL STATEMENT (kept visible; false of the code in the typing spelling): at every union level of
+the rendered hint (flattened through `Optional[…]`, `Union[…]` and `|`, as `typing` flattens them)
+`None` is mentioned at most once (`rootOK`, Model/HintRegion). -/
+def NoneOnce : Prop := ∀ (o : Opts) (t : DT), wfTree t = true → rootOK (hintE o t).1 = true
+
+/-- PARTIAL — `none_once` / `no_double_optional` for the `|` spelling, every tree with plain names:
+the text `type_hint` builds is the printed form of an expression in which (1) no `Optional[…]` and no
+`Union[…]` subscription occurs at all — in particular no doubly wrapped optional —, (2) every `|` union
+is flat, mentions `None` only as its last alternative, hence (3) `None` occurs at most once at every
+union level. (1) holds for every tree, also with odd names (`no_optional_wrapper_operator`). -/
+theorem none_once_operator (o : Opts) (ho : o.unionOp = true) (t : DT) (hw : wfTree t = true) :
+    (typeHint o t).1 = print (hintE o t).1 ∧ opFree (hintE o t).1 = true ∧ wfB (hintE o t).1 = true ∧
+    rootOK (hintE o t).1 = true := by
+  obtain ⟨h1, _, h3⟩ := typeHint_eq_print_operator o ho t hw
+  have hf := opFree_hintE o ho t
+  exact ⟨h1, hf, h3, (rootOK_of_wfB _ h3 hf).1⟩
+
+/-- `no_double_optional`, `|` spelling, EVERY tree (also with odd names and literals): the structural
+rendering under `use_union_operator` never contains an `Optional[…]` or `Union[…]` subscription, so a
+doubly wrapped optional cannot be written in that spelling. -/
+theorem no_optional_wrapper_operator (o : Opts) (ho : o.unionOp = true) (t : DT) : opFree (hintE o t).1 = true :=
+  opFree_hintE o ho t
+
+/-- non-vacuity: an optional union with an optional member and a `None` member, under an optional list -/
+example :
+    let t : DT := .mk { isOptional := true, isList := true } none
+      [.mk { isOptional := true } none [leaf "int" true, leaf "None", .mk {} none [leaf "str" true]]]
+    wfTree t = true ∧ (typeHint operatorO t).1 = lit "List[int | str | None] | None" ∧
+    (typeHint typingO t).1 = lit "Optional[List[Optional[Union[Optional[int], Optional[str]]]]]" := by
+  decide
+
+/-- REFUTATION of `NoneOnce` (known finding C13-F2): the typing spelling of the same kind of tree
+mentions `None` twice in one union. -/
+theorem none_twice_typing :
+    wfTree (.mk { isOptional := true } none [leaf "int" true, leaf "str"]) = true ∧
+    rootOK (hintE typingO (.mk { isOptional := true } none [leaf "int" true, leaf "str"])).1 = false ∧
+    rootOK (hintE operatorO (.mk { isOptional := true } none [leaf "int" true, leaf "str"])).1 = true := by
+  decide
+
+theorem none_once_full_false : ¬ NoneOnce := by
+  intro h
+  have := h typingO (.mk { isOptional := true } none [leaf "int" true, leaf "str"]) none_twice_typing.1
+  rw [none_twice_typing.2.1] at this
+  exact absurd this (by decide)
+
 /-- REFUTATION (known finding C13-F3): a union of `None`s inside a container is written `Union[]`. -/
 theorem union_of_none_is_not_an_expression :
     (typeHint typingO (.mk { isList := true } none [leaf "None", leaf "None"])).1 = lit "Optional[List[Union[]]]" ∧
@@ -188,6 +288,74 @@ example :
     (typeHint { stdColl := true, genericCont := true } t).1 = lit "Optional[Mapping[str, Optional[Sequence[Union[FrozenSet[int], Literal['a']]]]]]" := by
   decide
 
+/-- PARTIAL — the Optional/Union-versus-`|` half of the claim (the headline: the annotation means the
+same with and without `--use-union-operator`), for each container spelling: for every tree with plain
+names inside `opRegion` (decidable, Model/HintRegion: at every union node no member renders as `Any`,
+and if the node is itself a list/set/dict every member is `None` or has no `None` alternative and not
+all are `None` — exactly where C13-F4/F3 live), the two texts are the printed forms of well-formed
+expressions with the SAME denotation. The two renderings are not related member by member (the
+text-level de-duplication of the union loop fires differently), only semantically. -/
+theorem spelling_invariant_operator_partial (o : Opts) (ho : o.unionOp = false) (t : DT)
+    (hw : wfTree t = true) (hr : opRegion o t = true) :
+    (typeHint o t).1 = print (hintE o t).1 ∧ (typeHint (withOp o) t).1 = print (hintE (withOp o) t).1 ∧
+    wfB (hintE o t).1 = true ∧ wfB (hintE (withOp o) t).1 = true ∧
+    denote (hintE (withOp o) t).1 = denote (hintE o t).1 := by
+  obtain ⟨h1, h2, h3, h4⟩ := rel_hint o ho t hw hr
+  exact ⟨(typeHint_eq_print_typing o ho t hw).1, (typeHint_eq_print_operator (withOp o) rfl t hw).1,
+    wfB_of_wfU _ h2, h4, h1.denote.symm⟩
+
+/-- non-vacuity of the operator half where the eight-spelling theorem does not apply: a type NAMED `List`
+(not `freeTree`) in an optional union under a dict -/
+example :
+    let t : DT := .mk { isDict := true } none [.mk { isOptional := true } none [leaf "List", leaf "int" true]]
+    wfTree t = true ∧ freeTree t = false ∧ opRegion typingO t = true ∧
+    (typeHint typingO t).1 = lit "Dict[str, Optional[Union[List, Optional[int]]]]" ∧
+    (typeHint (withOp typingO) t).1 = lit "Dict[str, List | int | None]" := by
+  decide
+
+/-- PARTIAL, ALL EIGHT SPELLINGS — the headline of C13: for every tree whose names are plain
+(`wfTree`), are not themselves container names (`freeTree`) and that lies inside `opRegionAll`
+(`opRegion` for each container spelling), the texts `DataType.type_hint` builds under ANY two of the
+eight option vectors {use_union_operator} × {use_standard_collections} × {use_generic_container} are
+the printed forms of well-formed hint expressions (unique readings, `hint_unambiguous_all`) that
+denote the SAME type (`denote`: Optional/Union/`|` ↦ one flattened de-duplicated union incl. None;
+List/list/Sequence ↦ list, …). -/
+theorem spelling_invariant_partial (o o' : Opts) (t : DT)
+    (hw : wfTree t = true) (hf : freeTree t = true) (hr : opRegionAll t = true) :
+    (typeHint o t).1 = print (hintE o t).1 ∧ (typeHint o' t).1 = print (hintE o' t).1 ∧
+    wfB (hintE o t).1 = true ∧ wfB (hintE o' t).1 = true ∧
+    denote (hintE o' t).1 = denote (hintE o t).1 := by
+  have text : ∀ p : Opts, (typeHint p t).1 = print (hintE p t).1 ∧ wfB (hintE p t).1 = true := by
+    intro p
+    cases hu : p.unionOp with
+    | false => exact ⟨(typeHint_eq_print_typing p hu t hw).1, wfB_of_wfU _ (typeHint_typing p hu t hw).2⟩
+    | true => exact ⟨(typeHint_eq_print_operator p hu t hw).1, (typeHint_eq_print_operator p hu t hw).2.2⟩
+  have toTyping : ∀ p : Opts, denote (hintE p t).1 = denote (hintE (withoutOp p) t).1 := by
+    intro p
+    cases hu : p.unionOp with
+    | false => rw [withoutOp_eq p hu]
+    | true =>
+      have hp : p = withOp (withoutOp p) := by
+        obtain ⟨u, s, g⟩ := p
+        simp only [] at hu
+        subst hu; rfl
+      have := (spelling_invariant_operator_partial (withoutOp p) rfl t hw (opRegionAll_spec t hr _ rfl)).2.2.2.2
+      rw [← hp] at this
+      exact this
+  refine ⟨(text o).1, (text o').1, (text o).2, (text o').2, ?_⟩
+  rw [toTyping o', toTyping o]
+  exact denote_hintE_collections (withoutOp o) (withoutOp o') rfl rfl t hw hf
+
+/-- non-vacuity: an optional dict of a union with a nested optional union member and a `None` member,
+all hypotheses hold, and two of the eight texts -/
+example :
+    let t : DT := .mk { isOptional := true, isDict := true } none
+      [.mk {} none [.mk { isList := true } none [leaf "int" true], .mk {} none [leaf "str", leaf "Foo" true], leaf "None"]]
+    wfTree t = true ∧ freeTree t = true ∧ opRegionAll t = true ∧
+    (typeHint typingO t).1 = lit "Optional[Dict[str, Optional[Union[List[Optional[int]], Union[str, Optional[Foo]]]]]]" ∧
+    (typeHint { unionOp := true, stdColl := true } t).1 = lit "dict[str, list[int | None] | str | Foo | None] | None" := by
+  decide
+
 /-- REFUTATION (known finding C13-F4), names plain: a union node that is itself the list, with an
 optional member (`items: [{"type": ["integer","null"]}, {"type":"string"}]`): the `|` spelling moves
 the member's `None` out of the list. Both texts, and their different meanings. -/
@@ -198,6 +366,14 @@ theorem spelling_changes_meaning :
     (typeHint operatorO t).1 = lit "List[int | str] | None" ∧
     (denote (hintE typingO t).1).show = lit "list({int;str;None})" ∧
     (denote (hintE operatorO t).1).show = lit "{list({int;str});None}" := by
+  decide
+
+/-- the hypotheses of `spelling_invariant_partial` are doing work: the witnesses of C13-F4 and C13-F3
+have plain names and lie outside `opRegion` -/
+theorem refuting_witnesses_are_outside_the_region :
+    opRegion typingO (.mk { isList := true } none [leaf "int" true, leaf "str"]) = false ∧
+    opRegion typingO (.mk { isList := true } none [leaf "None", leaf "None"]) = false ∧
+    opRegion typingO (.mk {} none [leaf "int" true, leaf "str"]) = true := by
   decide
 
 theorem spelling_invariant_full_false : ¬ SpellingInvariant := by
